@@ -290,6 +290,17 @@ func C01real(r *ev.Report) {
 func init() {
 	Parts["C01real"] = Part{"C01", C01real}
 	Replayers["C01"] = func(c Case) (bool, string) {
+		switch c["op"] {
+		case "Multiply":
+			if _, scalarCase := c["a"]; scalarCase {
+				return Replayers["C06"](c)
+			}
+		case "bin", "equals", "unary", "predicate", "neighbour", "sqrt", "parse", "wide":
+			return Replayers["C12"](c)
+		case "Add", "Subtract", "Square", "Invert", "Pow", "SetUInt64", "Zero", "One", "MinusOne", "Add(nil)", "Subtract(nil)", "Multiply(nil)", "Set(nil)", "NewScalar":
+			return Replayers["C06"](c)
+		}
+
 		if c["op"] == "persist" {
 			return Replayers["C10"](c)
 		}
